@@ -744,6 +744,15 @@ def install(I):
             raise Unsupported("sorted(reverse=...)")
         if isinstance(src, CompVal):
             raise Unsupported("sorted(generator)")
+        if isinstance(src, ViewVal) and src.what == "items" and key is None:
+            # sorted(d.items()): keys are distinct, so the pairs are ordered by key
+            d = src.dsv
+            kk, vk = d.kind.args
+            ks = sorted_model(st, ViewVal("keys", d), None, False)
+            return IterSpec("seq", length=ks.tree[0], ekind=None,
+                            elt=lambda i: (SV(kk, tselect(ks.tree[1], i)),
+                                           SV(vk, tselect(d.tree[1], to_key(kk, tselect(ks.tree[1], i))))),
+                            keys_list=ks, as_list=ks)
         spec = I.to_iterspec(st, src)
         if spec.mode == "concrete":
             spec = I.concrete_to_seq(spec)
